@@ -1,6 +1,5 @@
 import KitModel.Go.Prelude
-import KitModel.Coalescing
-import Std.Data.HashSet
+import KitModel.CoalescingSim
 /-!
 Driver for property C09: `kitdrv C09`.
 
@@ -27,126 +26,39 @@ f64 n=<n>             float64 rounding used by the back-off (independent of `beg
 ```
 -/
 namespace Driver.C09
-open Kit Kit.Coalescing
+open Kit Kit.Coalescing Kit.Coalescing.Sim
 
-structure DState where
-  m : State
-  /-- `Add` calls issued whose critical section has not run yet. -/
-  pAdd : Nat := 0
-  /-- `Add` bodies done, return not yet observed. -/
-  rAdd : Nat := 0
-  /-- `Close` calls issued that have not closed yet. -/
-  pClose : Nat := 0
-  /-- handled tokens / expiries not yet reported by their hook. -/
-  uIn : Nat := 0
-  uTm : Nat := 0
-  /-- 0: loop free; 1: loop inside a hook callback, not yet reported; 2: parked by the harness. -/
-  blocked : Nat := 0
-  deriving BEq, Hashable, Repr
-
-structure Sim where
+structure SimSt where
   cfg : Config := { initial := 1, max := 1, cap := none }
   hooks : Bool := false
   states : List DState := []
   dead : Bool := true
   events : Nat := 0
 
-def loopLabel : Label → Bool
-  | .top | .deliver | .expire | .exitLoop => true
-  | _ => false
-
-def internalLabels : List Label :=
-  [.run, .top, .deliver, .tokenGiveUp, .expire, .exitLoop, .senderGiveUp]
-
-/-- One internal (unobserved) step of the wrapped system. -/
-def tauSucc (cfg : Config) (hooks : Bool) (d : DState) : List DState :=
-  let ms := internalLabels.filterMap fun l =>
-    if loopLabel l && d.blocked != 0 then none
-    else match step cfg d.m l with
-      | none => none
-      | some m' =>
-        match l with
-        | .deliver => if hooks then some { d with m := m', uIn := d.uIn + 1, blocked := 1 } else some { d with m := m' }
-        | .expire => if hooks then some { d with m := m', uTm := d.uTm + 1, blocked := 1 } else some { d with m := m' }
-        | _ => some { d with m := m' }
-  let a := if d.pAdd > 0 then
-      match step cfg d.m .add with
-      | some m' => [{ d with m := m', pAdd := d.pAdd - 1, rAdd := d.rAdd + 1 }]
-      | none => []
-    else []
-  let c := if d.pClose > 0 then
-      match step cfg d.m .close with
-      | some m' => [{ d with m := m', pClose := d.pClose - 1 }]
-      | none => []
-    else []
-  ms ++ a ++ c
-
-/-- The counters that no transition reads (they only exist for the theorems) are zeroed so that
-states differing in nothing else are merged. -/
-def norm (d : DState) : DState :=
-  { d with m := { d.m with adds := 0, fires := 0, consumed := 0, dropped := 0, closeReturned := 0,
-                           wk := 0, armedAt := 0 } }
-
-/-- τ-closure by worklist; `fuel` bounds the number of expansions (every τ step decreases a
-finite measure, so the closure is finite; the bound is never reached in practice and reaching it
-is reported as a reject by the caller). -/
-def closure (cfg : Config) (hooks : Bool) :
-    Nat → List DState → Std.HashSet DState → Std.HashSet DState × Bool
-  | 0, todo, seen => (seen, todo.isEmpty)
-  | _ + 1, [], seen => (seen, true)
-  | fuel + 1, d :: todo, seen =>
-    let succs := (tauSucc cfg hooks d).map norm
-    let (seen', todo') := succs.foldl (fun (acc : Std.HashSet DState × List DState) x =>
-      if acc.1.contains x then acc else (acc.1.insert x, x :: acc.2)) (seen, todo)
-    closure cfg hooks fuel todo' seen'
-
-def closeSet (cfg : Config) (hooks : Bool) (ds : List DState) : List DState × Bool :=
-  let init : Std.HashSet DState := ds.foldl (fun acc d => acc.insert (norm d)) {}
-  let (set, complete) := closure cfg hooks 2000000 init.toList init
-  (set.toList, complete)
-
-def quiescent (cfg : Config) (hooks : Bool) (d : DState) : Bool :=
-  (tauSucc cfg hooks d).isEmpty && d.rAdd == 0 && d.uIn == 0 && d.uTm == 0 && d.blocked != 1
-  && (step cfg d.m .closeRet).isNone && (step cfg d.m .runRet).isNone
-
-inductive TimerObs where
-  | none | at (d : Nat)
-
-/-- Effect of one observed event on one state (`none` = this state cannot have produced it). -/
-def obsStep (cfg : Config) (hooks : Bool) (ln : Line) (d : DState) : Option DState :=
-  let viaModel (l : Label) : Option DState := (step cfg d.m l).map fun m' => { d with m := m' }
+/-- One trace line as an event of `Kit.Coalescing.Sim` (`none`: not an event line / malformed). -/
+def parseEv (ln : Line) : Option Ev :=
   match ln.op with
-  | "runcall" => viaModel .runCall
-  | "addcall" => some { d with pAdd := d.pAdd + 1 }
-  | "addret" => if d.rAdd > 0 then some { d with rAdd := d.rAdd - 1 } else none
-  | "closecall" => some { d with pClose := d.pClose + 1 }
-  | "closeret" => viaModel .closeRet
-  | "cancel" => viaModel .cancel
-  | "runret" => viaModel .runRet
-  | "adv" => (ln.nat? "t").bind fun t => viaModel (.advance t)
-  | "recv" => (ln.nat? "t").bind fun t => if t == d.m.now then viaModel .consume else none
-  | "hin" =>
-    if hooks && d.uIn > 0 && d.blocked == 1 then
-      some { d with uIn := d.uIn - 1, blocked := if ln.nat? "park" == some 1 then 2 else 0 }
-    else none
-  | "htm" =>
-    if hooks && d.uTm > 0 && d.blocked == 1 then
-      some { d with uTm := d.uTm - 1, blocked := if ln.nat? "park" == some 1 then 2 else 0 }
-    else none
-  | "release" => if d.blocked == 2 then some { d with blocked := 0 } else none
+  | "runcall" => some .runcall
+  | "addcall" => some .addcall
+  | "addret" => some .addret
+  | "closecall" => some .closecall
+  | "closeret" => some .closeret
+  | "cancel" => some .cancel
+  | "runret" => some .runret
+  | "adv" => (ln.nat? "t").map .adv
+  | "recv" => (ln.nat? "t").map .recv
+  | "hin" => (ln.nat? "park").map fun p => .hin (p == 1)
+  | "htm" => (ln.nat? "park").map fun p => .htm (p == 1)
+  | "release" => some .release
   | "settle" =>
-    let tok := ln.nat? "tok"
-    let snd := ln.nat? "snd"
-    let lp := ln.nat? "loop"
     let tm : Option (Option Nat) :=
       match ln.get? "timer" with
       | some "none" => some none
       | some v => v.toNat?.map some
       | none => none
-    if quiescent cfg hooks d && d.pAdd == 0 && d.pClose == 0
-        && tok == some d.m.tokens && snd == some d.m.senders
-        && lp == some (if d.m.running then 1 else 0)
-        && tm == some d.m.timer then some d else none
+    match ln.nat? "tok", ln.nat? "snd", ln.nat? "loop", tm with
+    | some tok, some snd, some lp, some tm => some (.settle tok snd (lp == 1) tm)
+    | _, _, _, _ => none
   | _ => none
 
 def showState (d : DState) : String :=
@@ -158,7 +70,7 @@ def showState (d : DState) : String :=
 def showSet (ds : List DState) : String :=
   " ".intercalate ((ds.take 6).map showState)
 
-def handle (sim : Sim) (raw : String) : Sim × String :=
+def handle (sim : SimSt) (raw : String) : SimSt × String :=
   let ln := parseLine raw
   match ln.op with
   | "f64" =>
@@ -177,7 +89,7 @@ def handle (sim : Sim) (raw : String) : Sim × String :=
     | some i, some mx, some c, some h =>
       let cfg : Config := { initial := i, max := mx, cap := if c == 0 then none else some c }
       let hooks := h == 1
-      let (ds, _) := closeSet cfg hooks [{ m := init cfg }]
+      let (ds, _) := closeSet cfg hooks [initD cfg]
       ({ cfg, hooks, states := ds, dead := false, events := 0 }, s!"ok n={ds.length}")
     | _, _, _, _ => ({ sim with dead := true }, "error bad begin")
   | "end" =>
@@ -185,17 +97,20 @@ def handle (sim : Sim) (raw : String) : Sim × String :=
   | _ =>
     if sim.dead then (sim, "dead")
     else
-      let next := sim.states.filterMap (obsStep sim.cfg sim.hooks ln)
-      let (cl, complete) := closeSet sim.cfg sim.hooks next
-      if cl.isEmpty then
-        ({ sim with dead := true },
-          s!"reject event={sim.events} line={raw.trimAscii.toString} before={sim.states.length} states={showSet sim.states}")
-      else if !complete then
-        ({ sim with dead := true }, s!"reject event={sim.events} closure-fuel-exhausted")
-      else
-        ({ sim with states := cl, events := sim.events + 1 }, s!"ok n={cl.length}")
+      match parseEv ln with
+      | none => ({ sim with dead := true }, s!"reject event={sim.events} unparsable line={raw.trimAscii.toString}")
+      | some ev =>
+        -- exactly `Sim.stepSet`, the function `accepts` iterates (theorem `accepts_sound`)
+        let (cl, complete) := stepSet sim.cfg sim.hooks sim.states ev
+        if cl.isEmpty then
+          ({ sim with dead := true },
+            s!"reject event={sim.events} line={raw.trimAscii.toString} before={sim.states.length} states={showSet sim.states}")
+        else if !complete then
+          ({ sim with dead := true }, s!"reject event={sim.events} closure-fuel-exhausted")
+        else
+          ({ sim with states := cl, events := sim.events + 1 }, s!"ok n={cl.length}")
 
 def main (_args : List String) : IO UInt32 := do
-  lineLoop handle ({} : Sim)
+  lineLoop handle ({} : SimSt)
   return 0
 end Driver.C09
